@@ -408,7 +408,7 @@ func corpusC01() []*scen.Scenario {
 	b3.Func("func cvPI(p *int) int {\n\tvtr.Enter(\"cvPI\", p)\n\treturn *p\n}\n", false, "cvPI")
 	m3 := &scen.Method{Name: "AddrOfConversion", Src: scen.Param{Type: "*S"}, Dst: scen.Param{Type: "*D"},
 		Notations: []scen.Notation{scen.N("typecast"), scen.N("stringer"), scen.N("conv", "cvPS", "A", "A"), scen.N("conv", "cvPS", "B", "B"), scen.N("conv", "cvPI", "C", "C")},
-		Probes: []scen.Probe{{Dst: "A", Mech: "conv", DstT: "int", SrcT: "int", Extra: "ptrarg"}, {Dst: "B", Mech: "conv", DstT: "int", SrcT: "LStr", Extra: "ptrarg"}, {Dst: "C", Mech: "conv", DstT: "int", SrcT: "LInt", Extra: "ptrarg"}}}
+		Probes:    []scen.Probe{{Dst: "A", Mech: "conv", DstT: "int", SrcT: "int", Extra: "ptrarg"}, {Dst: "B", Mech: "conv", DstT: "int", SrcT: "LStr", Extra: "ptrarg"}, {Dst: "C", Mech: "conv", DstT: "int", SrcT: "LInt", Extra: "ptrarg"}}}
 	// repaired in 4340aa3 / 481d86e: the result of a getter that returns a struct by value has no address -
 	// no pointer-receiver getter can be called on it and neither it nor its fields can be passed by address
 	b4 := scen.NewBuilder(nil, scen.Profile{}, "kw-c01-value-getter-result", "kwc01d")
@@ -422,6 +422,6 @@ func corpusC01() []*scen.Scenario {
 	b4.Func("func cvPIn(p *In) int {\n\tvtr.Enter(\"cvPIn\", p)\n\treturn p.Aux\n}\n", false, "cvPIn")
 	m4 := &scen.Method{Name: "ValueGetterResult", Src: scen.Param{Type: "*S"}, Dst: scen.Param{Type: "*D"},
 		Notations: []scen.Notation{scen.N("getter"), scen.N("map", "Val().Name()", "N2"), scen.N("conv", "cvPI2", "Val().Aux", "A2"), scen.N("conv", "cvPIn", "Val()", "A3")},
-		Probes: []scen.Probe{{Dst: "Val", Mech: "nested", DstT: "DIn", SrcT: "In", Extra: "via-getter"}, {Dst: "N2", Mech: "map", DstT: "string", Extra: "getter"}, {Dst: "A2", Mech: "conv", DstT: "int", Extra: "ptrarg"}, {Dst: "A3", Mech: "conv", DstT: "int", Extra: "ptrarg"}}}
+		Probes:    []scen.Probe{{Dst: "Val", Mech: "nested", DstT: "DIn", SrcT: "In", Extra: "via-getter"}, {Dst: "N2", Mech: "map", DstT: "string", Extra: "getter"}, {Dst: "A2", Mech: "conv", DstT: "int", Extra: "ptrarg"}, {Dst: "A3", Mech: "conv", DstT: "int", Extra: "ptrarg"}}}
 	return []*scen.Scenario{b.Manual(m), b2.Manual(m2), b3.Manual(m3), b4.Manual(m4)}
 }
